@@ -74,6 +74,12 @@ def tasks(tier):
                    strat_menu=[1, 0], strat_free=True, max_unknown=1,
                    strat={"default": None, "per": {"T": "ctx", "R": "legacy", "U": "ctx+opt"}})
         out.append({"family": "outcome-classified-once", "cfg": cfg, "entry": e, "bound": 1})
+    # attempt_timeout_s configured (sync, owned executor) and the operation itself raises
+    # TimeoutError well within the timeout: it is that attempt's own exception
+    for M, e in itertools.product([1, 2, 3], ["Retry.execute", "Policy.execute", "RetryPolicy.execute"]):
+        cfg = dict(M=M, alphabet=["ok", "x:T", "timeout", "r:T"], attempt_timeout=4, durs=[0, 1],
+                   max_unknown=None, handler="call")
+        out.append({"family": "outcome-attempt-timeout", "cfg": cfg, "entry": e, "bound": 1})
     return out
 
 
